@@ -3,6 +3,7 @@ package gauge
 import (
 	"fmt"
 	"math/big"
+	"strings"
 	"time"
 
 	sdk "github.com/cosmos/cosmos-sdk/types"
@@ -26,7 +27,7 @@ func rndBig(rng *sim.Rng, max *big.Int) *big.Int {
 	return new(big.Int).Rand(rng.Rand, max)
 }
 
-func driveFixture(rng *sim.Rng, bigMode, ranged bool) (*sim.Env, *fixture) {
+func driveFixture(rng *sim.Rng, bigMode, ranged, many bool) (*sim.Env, *fixture) {
 	t := big.NewInt
 	var cfg fxCfg
 	rew := []string{"urwda", "urwdb", "urwdc", "urwdd", "urwde", "urwdf", "ushared", "uexta", "uextb", "ucmdx", "uddd"}
@@ -72,6 +73,20 @@ func driveFixture(rng *sim.Rng, bigMode, ranged bool) (*sim.Env, *fixture) {
 			}
 		}
 	}
+	if many { // five pools: pools 3 and 4 get assets of their own (a whole child pool can lose its prices), pool 5 = the old pool 3
+		old3 := cfg.Pools[2]
+		cfg.Pools = cfg.Pools[:2]
+		for _, n := range []string{"EEE", "FFF", "GGG", "HHH"} {
+			a := cfg.Assets[rng.Intn(4)]
+			cfg.Assets = append(cfg.Assets, assetCfg{n, "u" + strings.ToLower(n), a.Dec, a.Twa + uint64(rng.Intn(3))})
+		}
+		for k := 0; k < 2; k++ {
+			src := cfg.Pools[k]
+			cfg.Pools = append(cfg.Pools, poolCfg{Base: 4 + 2*k, Quote: 5 + 2*k, Rx: new(big.Int).Add(src.Ry, big.NewInt(int64(rng.Intn(300)))),
+				Ry: new(big.Int).Add(src.Rx, big.NewInt(int64(rng.Intn(300))))})
+		}
+		cfg.Pools = append(cfg.Pools, old3)
+	}
 	if ranged { // pool 4: a ranged pool on the pair of pool 1 (both pools' swap-fee gauges draw on one collector)
 		cfg.Pools = append(cfg.Pools, poolCfg{RangedOn: 1, Rx: new(big.Int).Set(cfg.Pools[0].Rx), Ry: new(big.Int).Set(cfg.Pools[0].Ry)})
 	}
@@ -81,14 +96,19 @@ func driveFixture(rng *sim.Rng, bigMode, ranged bool) (*sim.Env, *fixture) {
 func drive(lg *sim.Log, seed int64, idx, steps int) {
 	rng := sim.NewRng(seed*1000003 + int64(idx)*7919 + 17)
 	bigMode := idx%2 == 1
-	ranged := idx%4 >= 2
-	e, fx := driveFixture(rng, bigMode, ranged)
+	k8 := idx % 8
+	ranged := k8 == 2 || k8 == 3 || k8 == 7
+	many := k8 >= 4 && k8 <= 6
+	e, fx := driveFixture(rng, bigMode, ranged, many)
 	mode := "small"
 	if bigMode {
 		mode = "big"
 	}
 	if ranged {
 		mode += "+ranged"
+	}
+	if many {
+		mode += "+many"
 	}
 	r := &runner{lg: lg, run: fmt.Sprintf("drive:%d:%d:%s", seed, idx, mode)}
 	fx.setupExt(e, rng, bigMode)
@@ -105,6 +125,41 @@ func drive(lg *sim.Log, seed int64, idx, steps int) {
 	}
 	dts := []time.Duration{time.Hour, 6 * time.Hour, 12*time.Hour + time.Second, 12 * time.Hour, 13 * time.Hour, 24*time.Hour + time.Second,
 		25 * time.Hour, 30 * time.Hour, 49 * time.Hour, 80 * time.Hour, 6 * time.Second}
+	if ranged {
+		// directed opening of the shared-pair runs: two pools of one pair are farmed, fees reach their common collector and are
+		// paid out; then one oracle price of the pair goes away for two epochs (the payout needs one price, the split of the
+		// collector between the two pools needs both) while a gauge created in the fee denom holds coins next to them
+		feeAmt := func() *big.Int { return new(big.Int).Add(amount(3000, 10), big.NewInt(50)) }
+		send := func(denom string) {
+			amt := feeAmt()
+			must(e.App.BankKeeper.SendCoins(e.Ctx, sim.Addr("gc"), fx.pairs[0].GetSwapFeeCollectorAddress(), sdk.NewCoins(coin(denom, amt))))
+			cur = r.node(cur, "SwapFee", map[string]interface{}{"p": 1, "amt": sim.Limbs(amt), "denom": denom}, nil, fx.project(e))
+		}
+		for i, f := range fx.cfg.Farmers[:3] {
+			p := []int{1, np, 1}[i]
+			cur = r.node(cur, "Farm", fx.farm(e, f, p, amount(400, 8), false), nil, fx.project(e))
+		}
+		a := &createArgs{From: "gc", GType: 1, Pool: 2, Tot: 3, depBig: amount(5000, 12), Dur: int64(36 * time.Hour / time.Second),
+			Start: rel(e.Ctx.BlockTime()), Denom: "ucmdx"}
+		fx.createGauge(e, a)
+		cur = r.node(cur, "CreateGauge", a, nil, fx.project(e))
+		send("ucmdx")
+		for i := 0; i < 3; i++ {
+			cur = fx.block(r, e, cur, 25*time.Hour)
+		}
+		off := fx.cfg.Pools[0].Quote
+		if rng.Intn(2) == 0 {
+			off = fx.cfg.Pools[0].Base
+		}
+		fx.setPrice(e, off, 0, false)
+		cur = r.node(cur, "Price", map[string]interface{}{"asset": off + 1, "kind": 0}, nil, fx.project(e))
+		send("ucmdx")
+		for i := 0; i < 2; i++ {
+			cur = fx.block(r, e, cur, 25*time.Hour)
+		}
+		fx.setPrice(e, off, fx.cfg.Assets[off].Twa, true)
+		cur = r.node(cur, "Price", map[string]interface{}{"asset": off + 1, "kind": 1}, nil, fx.project(e))
+	}
 	for k := 0; k < steps; k++ {
 		switch rng.Weighted([]int{12, 22, 10, 34, 4, 3, 6, 9, 3}) {
 		case 0: // create gauge
@@ -132,13 +187,17 @@ func drive(lg *sim.Log, seed int64, idx, steps int) {
 			}
 			if rng.Intn(3) == 0 {
 				a.Master = true
-				switch rng.Intn(3) {
-				case 0:
-					a.Childs = []int64{}
-				case 1:
-					a.Childs = []int64{1 + a.Pool%3}
-				default:
-					a.Childs = []int64{1 + a.Pool%3, 1 + (a.Pool+1)%3}
+				// default (all other pools) or a random selection of the other pools in random order
+				a.Childs = []int64{}
+				if rng.Intn(3) != 0 {
+					others := []int64{}
+					for q := int64(1); q <= int64(np); q++ {
+						if q != a.Pool {
+							others = append(others, q)
+						}
+					}
+					rng.Shuffle(len(others), func(i, j int) { others[i], others[j] = others[j], others[i] })
+					a.Childs = others[:1+rng.Intn(len(others))]
 				}
 			}
 			switch rng.Intn(14) { // rejected shapes
@@ -193,10 +252,14 @@ func drive(lg *sim.Log, seed int64, idx, steps int) {
 			cur = fx.block(r, e, cur, dts[rng.Intn(len(dts))])
 		case 4: // oracle price of one asset goes away / comes back / is stale-but-positive
 			ai := rng.Intn(len(fx.cfg.Assets))
-			kind := []int{0, 1, 1, 1, 2}[rng.Intn(5)]
+			kind := []int{0, 1, 1, 1, 2, 3, 3}[rng.Intn(7)]
 			switch kind {
 			case 0:
 				fx.setPrice(e, ai, 0, false)
+			case 3: // a whole pool loses both prices (also hits the pools that share one of its assets)
+				pc := fx.cfg.Pools[rng.Intn(np)]
+				fx.setPrice(e, pc.Quote, 0, false)
+				fx.setPrice(e, pc.Base, 0, false)
 			case 1: // every price is back
 				for i := range fx.cfg.Assets {
 					fx.setPrice(e, i, fx.cfg.Assets[i].Twa, true)
